@@ -24,7 +24,7 @@ RE_C = re.compile(r'^if(!)?\s?self\.(\w+)\(&self\.ctx(,&payload)?\)(\.await)?\{r
 RE_B = re.compile(r'^self\.(\w+)\((&payload)?\)(\.await)?;$')
 RE_A = re.compile(r'^new_machine\.(\w+)\((&payload)?\)(\.await)?;$')
 RE_N = re.compile(r'^let mut new_machine=(\w+)\{ctx:self\.ctx,_state:::core::marker::PhantomData,(.*)\};$')
-RE_INIT = re.compile(r'(\w+):::core::option::Option::(None|Some\(<([^,]*?)as::core::default::Default>::default\(\)\)),')
+RE_INIT = re.compile(r'(\w+):::core::option::Option::(None|Some\(<((?:(?!as::core::default::Default>).)*?)as::core::default::Default>::default\(\)\)),')
 
 
 def b2s(x):
